@@ -226,7 +226,7 @@ def run(ctx):
         x = a
         okm = x[0] == "call" and x[1] == "std::option::Option::<T>::unwrap" and x[2][0][0] == "call" and x[2][0][1] == "std::option::Option::<T>::take"
         src = M.noref(x[2][0][2][0]) if okm else None
-        okm = okm and src[0] == "field" and src[2] == "stdout" and src[1][0] == "call" and "index" in src[1][1].lower()
+        okm = okm and src[0] == "field" and src[2] == "stdout" and M.strip(src[1])[0] == "call" and ("index" in M.strip(src[1])[1].lower() or M.strip(src[1])[1].endswith("::last_mut"))
         ctx.ob("R08.4", "stage-stdin=take(prev.stdout)", okm, pp.loc(bb), "stage stdin = %s (must be prev.stdout.take().unwrap(): the parent keeps no copy)" % M.term_str(a)[:160])
 
 
